@@ -20,7 +20,8 @@ RULE = ("LocalBioFilter(k, run, gc, motifs).valid(s, only_last) for k = 1..10 (1
         "2k, 3k+2 with a G+C bias sweeping the bounds, injected runs (limit, limit+1), motif / reverse complement at every "
         "offset, foreign characters at every offset. Verdict vs the rational predicate; valid(s, True) == valid(s[-k:], False); "
         "valid(s) == valid(revcomp(s)) for ACGT strings; for |s| >= k and window-decidable configurations valid(s) == all("
-        "valid(window)). Non-trivial: the string is at least 2 long and at least one rule is configured; distinct = hash.")
+        "valid(window)). Non-trivial: the string is at least 2 long and at least one rule is configured; distinct = hash."
+        ' Also: white-space tails (newline, CR LF, tab, NUL) after an acceptable strand, strings of 1000-1600 nt with a window exactly on a GC bound at the start / end / inside, and one filter object judging a strand that grows piece by piece (verdicts must not depend on earlier calls).')
 
 
 def ref_valid(cfg, s, only_last):
